@@ -13,8 +13,11 @@ package main
 
 import (
 	"fmt"
+	"strings"
 
+	"github.com/ovrclk/akash/provider/cluster"
 	atypes "github.com/ovrclk/akash/types"
+	dtypes "github.com/ovrclk/akash/x/deployment/types"
 )
 
 type arOperand struct {
@@ -58,6 +61,9 @@ type ArCase struct {
 	Check string      `json:"check"`
 	Ops   []arOperand `json:"operands"`
 	RV    []uint64    `json:"rv,omitempty"`
+	// check "commit": the operands are the units of a request (Counts per unit), Commit the cpu/memory/storage levels
+	Commit []float64 `json:"commit,omitempty"`
+	Counts []uint32  `json:"counts,omitempty"`
 }
 
 type ArStats struct {
@@ -223,6 +229,34 @@ func runArCase(c ArCase) (msg string) {
 		if a.Value() != c.RV[0] || b.Value() != c.RV[1] {
 			return fmt.Sprintf("arith-operand-mutated:ResourceValue.sub: %d-%d left operands %s, %s", c.RV[0], c.RV[1], fmtRV(a), fmtRV(b))
 		}
+	case "commit":
+		// committedResources(x) must leave the request x as it was, give the oracle's scaled amounts, keep
+		// attributes / endpoints / counts, and give the same answer when asked again with the same x
+		levels := [3]float64{c.Commit[0], c.Commit[1], c.Commit[2]}
+		cfg := cluster.Config{CPUCommitLevel: levels[0], MemoryCommitLevel: levels[1], StorageCommitLevel: levels[2]}
+		build := func() *dtypes.GroupSpec {
+			g := &dtypes.GroupSpec{Name: "req"}
+			for i, o := range c.Ops {
+				g.Resources = append(g.Resources, dtypes.Resource{Resources: o.build(), Count: c.Counts[i]})
+			}
+			return g
+		}
+		x := build()
+		before := fmtGroup(build())
+		var wantParts []string
+		for i, o := range c.Ops {
+			wantParts = append(wantParts, fmt.Sprintf("%sx%d", wantUnits(o, commitVec(levels, o.V)), c.Counts[i]))
+		}
+		want := "req[" + strings.Join(wantParts, " ") + "]"
+		for round := 1; round <= 2; round++ {
+			got := fmtGroup(cluster.VerifCommitted(cfg, x))
+			if s := fmtGroup(x); s != before {
+				return fmt.Sprintf("commit-mutates-request: committedResources(x) at commit levels %v changed the request x from %s to %s (call %d)", c.Commit, before, s, round)
+			}
+			if got != want {
+				return fmt.Sprintf("commit-wrong-amounts: committedResources(%s) at commit levels %v = %s, want %s (call %d with the same request object)", before, c.Commit, got, want, round)
+			}
+		}
 	default:
 		return "harness:unknown-ar-check: " + c.Check
 	}
@@ -286,6 +320,33 @@ func runAR(tier string) *ArStats {
 				for _, c := range plain {
 					run(ArCase{Check: "sum", Ops: []arOperand{a, b, c}}, b.V != zero || c.V != zero)
 				}
+			}
+		}
+	}
+	// committedResources on every small request x commit levels {1,2,3}
+	var allLevels [][]float64
+	for _, a := range []float64{1, 2, 3} {
+		for _, b := range []float64{1, 2, 3} {
+			for _, c := range []float64{1, 2, 3} {
+				allLevels = append(allLevels, []float64{a, b, c})
+			}
+		}
+	}
+	for _, a := range ops {
+		for _, lv := range allLevels {
+			for _, cnt := range []uint32{1, 2} {
+				run(ArCase{Check: "commit", Ops: []arOperand{a}, Counts: []uint32{cnt}, Commit: lv}, lv[0] > 1 || lv[1] > 1 || lv[2] > 1)
+			}
+		}
+	}
+	pairLevels := [][]float64{{1, 1, 1}, {2, 2, 2}, {3, 3, 3}, {2, 1, 3}}
+	if tier == "thorough" {
+		pairLevels = allLevels
+	}
+	for _, a := range plain {
+		for _, b := range plain {
+			for _, lv := range pairLevels {
+				run(ArCase{Check: "commit", Ops: []arOperand{a, b}, Counts: []uint32{2, 1}, Commit: lv}, lv[0] > 1 || lv[1] > 1 || lv[2] > 1)
 			}
 		}
 	}
